@@ -36,11 +36,15 @@ def h_config(e, **kw):
     return cachestep.h_config(e, **kw)
 
 
-HARNESSES = {"step": h_step, "history": h_history, "prog": h_prog, "config": h_config}
+def h_deep(e, **kw):
+    return cachestep.h_deep(e, **kw)
+
+
+HARNESSES = {"step": h_step, "history": h_history, "prog": h_prog, "config": h_config, "deep": h_deep}
 
 
 def jobs(tier, seed):
-    return cachestep.step_jobs(tier, {"C09"}, "checks.c09") + cachestep.history_jobs(tier, {"C09"}, "checks.c09") + extra_jobs(tier, seed)
+    return cachestep.step_jobs(tier, {"C09"}, "checks.c09") + cachestep.history_jobs(tier, {"C09"}, "checks.c09") + cachestep.deep_jobs(tier, {"C09"}, "checks.c09") + extra_jobs(tier, seed)
 
 
 def extra_jobs(tier, seed):
